@@ -190,7 +190,9 @@ class Container:
         current data to disk.
         """
         write_to_disk_secs = self.assignment.ram / DISK_SCAN_GB_SEC
-        write_to_disk_ticks = int(write_to_disk_secs / self.tick_length_secs)
+        # writing out takes at least one tick: with 0 ticks the countdown in
+        # suspend_container_tick would never reach 0 and the allocation would leak
+        write_to_disk_ticks = max(1, int(write_to_disk_secs / self.tick_length_secs))
         self.suspend_ticks = write_to_disk_ticks
         self._suspend_ticks_left = write_to_disk_ticks
 
